@@ -107,17 +107,44 @@ def _bytes(*args):
     return Call(Glob("builtins", "bytes"), args)
 
 
+class ExecGlob(Glob):
+    """A global that is executed when called (and is still a global when merely referenced)."""
+    __slots__ = ("fn",)
+
+    def __init__(self, module, name, fn):
+        Glob.__init__(self, module, name)
+        self.fn = fn
+
+    def __call__(self, *args):
+        return self.fn(*args)
+
+    __hash__ = Glob.__hash__
+
+
 EXEC = {
-    ("_codecs", "encode"): _codecs_encode,
-    ("__builtin__", "bytearray"): _bytearray, ("builtins", "bytearray"): _bytearray,
-    ("__builtin__", "bytes"): _bytes, ("builtins", "bytes"): _bytes,
+    ("_codecs", "encode"): ExecGlob("_codecs", "encode", _codecs_encode),
+    ("__builtin__", "bytearray"): ExecGlob("__builtin__", "bytearray", _bytearray),
+    ("builtins", "bytearray"): ExecGlob("builtins", "bytearray", _bytearray),
+    ("__builtin__", "bytes"): ExecGlob("__builtin__", "bytes", _bytes),
+    ("builtins", "bytes"): ExecGlob("builtins", "bytes", _bytes),
 }
+
+
+def find_class_for(proto, module, name):
+    """bytes / bytearray builtins: `__builtin__` is their module for protocols <= 2 (CPython maps it through
+    fix_imports), `builtins` from protocol 3 on, where `__builtin__` cannot be imported at all."""
+    if module == "__builtin__" and name in ("bytes", "bytearray"):
+        # from protocol 3 on this module name means nothing to CPython 3: kept symbolic like any other class
+        return Glob(module, name) if proto >= 3 else EXEC[(module, name)]
+    if module == "builtins" and name in ("bytes", "bytearray"):
+        return EXEC[(module, name)] if proto >= 3 else Glob(module, name)
+    f = EXEC.get((module, name))
+    return f if f is not None else Glob(module, name)
 
 
 class PyUnpickler(pickle._Unpickler):
     def find_class(self, module, name):
-        f = EXEC.get((module, name))
-        return f if f is not None else Glob(module, name)
+        return find_class_for(self.proto, module, name)
 
     def persistent_load(self, pid):
         return Pers(pid)
@@ -133,6 +160,100 @@ class CUnpickler(pickle.Unpickler):
 
     def persistent_load(self, pid):
         return Pers(pid)
+
+
+class RefDict(object):
+    """Reference dictionary: linear search with an explicit equality; keeps the first key object and
+    the last value per class, as Python's dict does."""
+
+    def __init__(self, eq):
+        self.eq = eq
+        self.items_ = []
+
+    def __setitem__(self, k, v):
+        hash(k)     # unhashable keys raise TypeError as in dict
+        for i, (a, _) in enumerate(self.items_):
+            if a is k or self.eq(a, k):
+                self.items_[i] = (a, v)
+                return
+        self.items_.append((k, v))
+
+    def update(self, other):
+        for k, v in other.items():
+            self[k] = v
+
+    def items(self):
+        return list(self.items_)
+
+    __hash__ = None
+
+
+def py2eq(a, b):
+    """Equality with Python-2 str semantics for Str2: equal to unicode of the same ASCII content,
+    and (og-rek's rule, = Python 3 with encoding='bytes') to bytes of the same content."""
+    if isinstance(a, Str2) or isinstance(b, Str2):
+        if isinstance(a, Str2) and isinstance(b, Str2):
+            return a.b == b.b
+        if isinstance(b, Str2):
+            a, b = b, a
+        if isinstance(b, str):
+            try:
+                return a.b.decode("ascii") == b
+            except UnicodeDecodeError:
+                return a.b == b.encode("utf-8", "surrogatepass")
+        if isinstance(b, bytes):
+            return a.b == b
+        return False
+    if isinstance(a, tuple) and isinstance(b, tuple):
+        return len(a) == len(b) and all(py2eq(x, y) for x, y in zip(a, b))
+    if isinstance(a, Call) and isinstance(b, Call):
+        return a.func == b.func and py2eq(a.args, b.args)
+    if isinstance(a, Pers) and isinstance(b, Pers):
+        return py2eq(a.pid, b.pid)
+    if isinstance(a, (list, dict, bytearray, RefDict)) or isinstance(b, (list, dict, bytearray, RefDict)):
+        return a is b
+    try:
+        return bool(a == b)
+    except Exception:   # noqa
+        return False
+
+
+def py3eq(a, b):
+    """Equality when a py2 str is taken for text (StrictUnicode off; = Python 3 loading with a text
+    encoding): it equals the unicode string of the same bytes and no bytes object."""
+    def conv(x):
+        if isinstance(x, Str2):
+            return ("text", x.b)
+        if isinstance(x, str):
+            return ("text", x.encode("utf-8", "surrogatepass"))
+        if isinstance(x, tuple):
+            return tuple(conv(y) for y in x)
+        return x
+    a, b = conv(a), conv(b)
+    return py2eq(a, b)
+
+
+class RefUnpickler(PyUnpickler):
+    """Pure-Python unpickler whose dicts are RefDicts with py2-aware Python equality."""
+    dispatch = dict(pickle._Unpickler.dispatch)
+    keyeq = staticmethod(py2eq)
+
+    def load_empty_dictionary(self):
+        self.append(RefDict(self.keyeq))
+    dispatch[pickle.EMPTY_DICT[0]] = load_empty_dictionary
+
+    def load_dict(self):
+        items = self.pop_mark()
+        d = RefDict(self.keyeq)
+        for i in range(0, len(items), 2):
+            d[items[i]] = items[i + 1]
+        self.append(d)
+    dispatch[pickle.DICT[0]] = load_dict
+
+
+class RefUnpickler0(RefUnpickler):
+    dispatch = RefUnpickler.dispatch
+    keyeq = staticmethod(py3eq)
 
 
 def hx(b):
@@ -172,6 +293,12 @@ def render(v, path=(), budget=None):
                 return "#cycle"
             path = path + (id(v),)
         return ("l( " if isinstance(v, list) else "t( ") + "".join(render(x, path, budget) + " " for x in v) + ")"
+    if isinstance(v, RefDict):
+        if id(v) in path:
+            return "#cycle"
+        path = path + (id(v),)
+        ps = sorted((render(k, path, budget), render(x, path, budget)) for k, x in v.items())
+        return "d( " + "".join(a + " " + b + " " for a, b in ps) + ")"
     if isinstance(v, dict):
         if id(v) in path:
             return "#cycle"
@@ -189,10 +316,10 @@ def render(v, path=(), budget=None):
     return "?" + type(v).__name__
 
 
-def load(data, c=False):
+def load(data, c=False, ref=False, ref0=False):
     f = io.BytesIO(data)
     try:
-        u = (CUnpickler if c else PyUnpickler)(f)
+        u = (RefUnpickler0 if ref0 else RefUnpickler if ref else CUnpickler if c else PyUnpickler)(f)
         v = u.load()
     except RecursionError:
         return "EXC recursion"
@@ -220,7 +347,7 @@ def parse_key(toks, pos=0):
         return True, pos
     if t == "F":
         return False, pos
-    if c in "IUL":
+    if c in "IULJ":
         return int(body), pos
     if c == "D":
         return struct.unpack(">d", struct.pack(">Q", int(body, 16)))[0], pos
@@ -299,6 +426,10 @@ def handle(line):
             return load(b"" if f[1] == "-" else bytes.fromhex(f[1]))
         if f[0] == "loadc":
             return load(b"" if f[1] == "-" else bytes.fromhex(f[1]), c=True)
+        if f[0] == "loadr":
+            return load(b"" if f[1] == "-" else bytes.fromhex(f[1]), ref=True)
+        if f[0] == "loadr0":
+            return load(b"" if f[1] == "-" else bytes.fromhex(f[1]), ref0=True)
         if f[0] == "pyeq":
             i = f.index(";")
             a, _ = parse_key(f[1:i])
